@@ -43,6 +43,13 @@ def gen_layer(rng):
         req_ps = []
         if form < 0.06:
             pass  # request without any constant prefix
+        elif form < 0.25:
+            # SID and sub-function described by one 16 bit constant
+            req_ps.append(cc.param(None, dict(k="coded", dct=cc.std(cc.BUINT, 16), v=(sid << 8) | (sub or rng.choice([1, 0x90, 0xFF])))))
+        elif form < 0.35:
+            # SID split into two nibbles
+            req_ps.append(cc.param(None, dict(k="coded", dct=cc.std(cc.BUINT, 4), v=sid & 15), 0, 0))
+            req_ps.append(cc.param(None, dict(k="coded", dct=cc.std(cc.BUINT, 4), v=sid >> 4), 0, 4))
         else:
             req_ps.append(u8(sid))
             if sub is not None:
@@ -391,8 +398,10 @@ def main(argv=None):
                 continue
             # direct oracle: each service is filed under the first byte of its request
             for s in L["services"]:
-                if s["req"] and s["req"]["params"] and s["req"]["params"][0]["kind"]["k"] == "coded":
-                    b0 = s["req"]["params"][0]["kind"]["v"]
+                if s["req"] and s["req"]["params"] and s["req"]["params"][0]["kind"]["k"] == "coded" and \
+                        s["req"]["params"][0]["bitpos"] is None:
+                    pre = bytes(layer.diag_layer_raw.requests[s["req"]["name"]].coded_const_prefix())
+                    b0 = pre[0]
                     grp = [k for k, v in r if s["id"] in v]
                     if grp != [[b0]]:
                         ck.violation(f"service {s['name']} with request SID {b0:#x} is filed under {grp}", {"layer": cc.to_json(L)})
